@@ -5,6 +5,7 @@ sequences (and the ordered-pair matrix on small inputs); oracle = the value of
 each query on a fresh isolated object, byte snapshots of caller-owned arrays,
 and the shared Data/Grid object's own answers.
 """
+import math
 import random
 import shutil
 
@@ -85,9 +86,9 @@ def is_random(spec, name):
 class C06(Machine):
     pid = "C06"
     run_wall_cap = 90.0
-    rule = ("two layers: (a) ordered-pair sweep -- fresh object; qa; qb for "
-            "all ordered pairs of query patterns of the classes selected by "
-            "the seed; (b) random sequences of <= 12 queries (then again in "
+    rule = ("two layers: (a) ordered-pair sweep -- fresh object; qa; qb over "
+            "the ordered pairs of query patterns of all classes, walked in a "
+            "seed-dependent scattered order; (b) random sequences of <= 12 queries (then again in "
             "another order) on long-lived objects in five sharing topologies "
             "(single, two networks on one ClimateData, two networks on one "
             "GeoGrid, RecurrencePlot+Surrogates on one caller array, object "
@@ -128,10 +129,10 @@ class C06(Machine):
 
     # ------------------------------------------------------------ generation
     def pair_classes(self, seed, tier):
-        if tier == "thorough":
-            return list(PAIR_CLASSES)
-        r = random.Random(derive(seed, "c06-classes"))
-        return r.sample(PAIR_CLASSES, 3)
+        # every class in both tiers: the ordered-pair space is walked in a
+        # seed-dependent scattered order (below), so whatever the budget
+        # reaches is a uniform sample of it
+        return list(PAIR_CLASSES)
 
     _np = {}
 
@@ -164,15 +165,21 @@ class C06(Machine):
                     "aseed": a.randrange(10 ** 9), "builds": [], "ops": []}
         tab = self.n_pairs(seed, tier)
         total = sum(n * n for _, n in tab)
-        if k % 2 == 1 and (k // 2) * nconf + idx % nconf < total:
-            p = (k // 2) * nconf + idx % nconf
+        if k % 2 == 1:
+            j = (k // 2) * nconf + idx % nconf
+            # a bijection of the pair space: stride coprime to its size,
+            # seed-dependent offset (a fixed prefix of the enumeration would
+            # be all that a bounded budget ever sees)
+            step = next(q for q in (1000003, 999983, 1000033, 1000037,
+                                    7919, 104729) if math.gcd(q, total) == 1)
+            p = (j * step + derive(seed, "c06-pair-offset")) % total
             for cname, n in tab:
                 if p < n * n:
                     break
                 p -= n * n
             qs = all_queries(BY_NAME[cname])
             qa, qb = qs[p // n], qs[p % n]
-            ms = derive(seed, "c06-model", cname)
+            ms = derive(seed, "c06-model", cname, j // total)
             return {"property": self.pid, "seed": seed, "run": idx,
                     "config": {"lru": lru, "layer": "pair",
                                "topology": "single"},
@@ -210,6 +217,15 @@ class C06(Machine):
             i = o.randrange(nb)
             qs = all_queries(BY_NAME[base_cls[i]])
             qn, kw = qs[o.randrange(len(qs))]
+            if ops and "@attr" in ops[-1]["kw"].values() and \
+                    o.random() < 0.4:
+                # queries that take the same link attribute meet in the
+                # same memoised weighted matrices: keep them together
+                i = ops[-1]["obj"]
+                qa_ = [q for q in all_queries(BY_NAME[base_cls[i]])
+                       if "@attr" in q[1].values()]
+                if qa_:
+                    qn, kw = qa_[o.randrange(len(qa_))]
             ops.append({"obj": i, "name": qn, "kw": with_pos(kw, o)})
         again = list(ops)
         o.shuffle(again)
